@@ -264,4 +264,62 @@ SPECS = [
      """        moves = generate_moves(board, MoveGenerationMode::CapturesOnly, &zobrist_hasher);
         if let Some(b) = &best_move {""",
      "R3.2", "root list regenerated in capture-only mode from depth 2 on"),
+
+    # ---------------- C18
+    ("C18", "depth-starts-zero", EN, "    let mut cur_depth = 1;", "    let mut cur_depth = 0;", "R18.3", "depth 0 reported (and cur_depth - 1 underflows)"),
+    ("C18", "mate-n-no-round-up", EN, "            (MATE_SCORE - eval + 1) / 2,", "            (MATE_SCORE - eval) / 2,", "R18.4", "mate in one printed as mate 0"),
+    ("C18", "window-one-sided", EN, "    } else if eval <= -MATE_SCORE + mate_window {", "    } else if eval <= -MATE_SCORE {", "R18.4", "being mated printed as a centipawn score near -100000"),
+    ("C18", "info-on-equal", EN, "            if evaluation > alpha && !out_of_time(start, time_to_move_ms) {", "            if evaluation >= alpha && !out_of_time(start, time_to_move_ms) {", "R18.3", "lines within a depth no longer strictly improve"),
+    ("C18", "pv-set-after-info", EN,
+     """                search_info.set_principle_variation();
+                send_search_info(&search_info, cur_depth, evaluation, start);""",
+     """                send_search_info(&search_info, cur_depth, evaluation, start);
+                search_info.set_principle_variation();""", "R18.3", "info line printed with the previous PV"),
+    ("C18", "extra-info-string", EN,
+     """    search_info.node_searched();
+
+    // check for draw""",
+     """    search_info.node_searched();
+    if search_info.nodes_searched % 5_000_000 == 0 {
+        send_to_gui("info string still searching");
+    }
+
+    // check for draw""", "R18.1", "info line of another form from inside the search"),
+    ("C18", "cp-template-typo", EN, """            "info pv{} depth {} nodes {} score cp {} time {}",""", """            "info pv{} depth {} nodes {} cp {} time {}",""", "R18.1", "malformed cp line"),
+    # ---------------- C11 (R11.3 through the info rule)
+    ("C11", "mate-n-no-round-up", EN, "            (MATE_SCORE - eval + 1) / 2,", "            (MATE_SCORE - eval) / 2,", "R18.4", "mate in one printed as mate 0"),
+    ("C11", "mated-n-sign", EN, "            (MATE_SCORE + eval) / -2,", "            (MATE_SCORE + eval) / 2,", "R18.4", "being mated announced as mating"),
+    # ---------------- C13
+    ("C13", "promotion-only-in-all-moves", MG,
+     """        if mov.0 == BOARD_START && color == White && kind == Pawn {""",
+     """        if move_generation_mode == MoveGenerationMode::CapturesOnly {
+            new_moves.push(new_board);
+        } else if mov.0 == BOARD_START && color == White && kind == Pawn {""", "R13.1", "capture-promotions leave a pawn on the last rank in quiescence"),
+    # ---------------- C16
+    ("C16", "position-without-clear", UC, """                draw_table.clear();
+""", "", "R10.1", "repetition record survives a new position command"),
+    ("C16", "static-mut-counter", UC,
+     """pub fn send_to_gui(message: &str) {""",
+     """static GO_COUNT: std::sync::atomic::AtomicU32 = std::sync::atomic::AtomicU32::new(0);
+
+pub fn send_to_gui(message: &str) {
+    GO_COUNT.fetch_add(1, std::sync::atomic::Ordering::Relaxed);""", "R16.1", "hidden global state"),
+    ("C16", "ucinewgame-resets-nothing-but-go-reads-old-table", UC,
+     """            "ucinewgame" => (), // we don't keep any internal state really so no need to reset anything here""",
+     """            "ucinewgame" => draw_table.add_board_to_draw_table(&board),""", "R16.5", "ucinewgame changes the repetition record"),
+    # ---------------- C17
+    ("C17", "default-arm-resets-board", UC,
+     """            _ => error!("Unrecognized command: {}", buffer),""",
+     """            _ => {
+                error!("Unrecognized command: {}", buffer);
+                board = BoardState::from_fen(DEFAULT_FEN_STRING).unwrap();
+            }""", "R17.1", "garbage line resets the position"),
+    ("C17", "isready-only-when-idle", UC,
+     """            "isready" => send_to_gui("readyok"),""",
+     """            "isready" => {
+                if commands.len() == 1 {
+                    send_to_gui("readyok")
+                }
+            }""", "R17.2", "isready with trailing tokens unanswered"),
+    ("C17", "quit-returns-to-loop", UC, """            "quit" => process::exit(1),""", """            "quit" => info!("bye"),""", "R17.2", "quit ignored"),
 ]
